@@ -257,9 +257,17 @@ func runCase(phase string, i int) (res worker.Result) {
 					res.Violate("predecessors-error", fmt.Sprintf("%s: Predecessors(foreign layer of node %d) error: %v", where, nd.ID, err), witness(g, kind, orderClass, history))
 					return false
 				}
+				// two manifests may carry the same foreign descriptor (tiny random contents collide)
 				want := map[string]bool{}
-				if stored[nd.ID] {
-					want[gen.Key(nd.Desc)] = true
+				for _, other := range g.Nodes {
+					if skip[other.ID] || !stored[other.ID] {
+						continue
+					}
+					for _, ofd := range other.Foreign {
+						if gen.Key(ofd) == gen.Key(fd) {
+							want[gen.Key(other.Desc)] = true
+						}
+					}
 				}
 				gotSet := map[string]bool{}
 				for _, d := range got {
